@@ -1089,3 +1089,182 @@ Proof. vm_compute. reflexivity. Qed.
 
 Example ex_alloc : unmarshal_alloc (marshal ex_ps) = 932.
 Proof. vm_compute. reflexivity. Qed.
+
+(* ================================================================== *)
+(* L. the per-protocol entry points and Metadata.Equal                  *)
+
+Lemma read_by_id_gs data : read_by_id id_graphsync data = read_graphsync data.
+Proof. reflexivity. Qed.
+Lemma read_by_id_0 data : read_by_id 0 data = read_unknown data.
+Proof. reflexivity. Qed.
+
+Lemma read_unknown_sound data p n a :
+  read_unknown data = (Ok (p, n), a) -> wf_bytes data = true ->
+  firstn n data = enc_proto p /\ (1 <= n <= length data)%nat /\ kind_of p = KUnknown.
+Proof.
+  intros Hr W. unfold read_unknown in Hr.
+  destruct (dec data) as [[id k0]|e|e] eqn:Hd; try discriminate.
+  destruct (dec_split _ _ _ Hd W) as (S1 & L1 & B1).
+  pose proof (dec_bounds _ _ _ Hd) as Bk.
+  destruct (dec (skipn k0 data)) as [[size k2]|e|e] eqn:D2; try discriminate.
+  destruct (max_metadata_size <? size) eqn:EM; [discriminate|].
+  pose proof (wf_bytes_skipn k0 _ W) as W2.
+  destruct (dec_split _ _ _ D2 W2) as (S2 & L2 & B2).
+  pose proof (dec_bounds _ _ _ D2) as Bk2. rewrite skipn_length in Bk2.
+  set (body := firstn (N.to_nat size) (skipn (k0 + k2) data)) in *.
+  injection Hr as Hres Ha.
+  destruct (Nat.eqb (length body) 0 && (0 <? size))%bool; [discriminate|].
+  destruct (negb (N.of_nat (length body) =? size)) eqn:ES; [discriminate|].
+  inversion Hres; subst p n; clear Hres.
+  assert (Lb : (length body <= length data - k0 - k2)%nat).
+  { unfold body. rewrite firstn_length, skipn_length. lia. }
+  pose proof (enc_len_pos id). pose proof (enc_len_pos size).
+  cbn [enc_proto kind_of]. repeat split; try lia.
+  rewrite L1, L2. rewrite <- Nat.add_assoc. rewrite firstn_add.
+  rewrite S1 at 1. rewrite firstn_app_exact by (symmetry; exact L1). f_equal.
+  rewrite firstn_add. rewrite S2 at 1. rewrite firstn_app_exact by (symmetry; exact L2). f_equal.
+  rewrite skipn_skipn. apply firstn_length_firstn.
+Qed.
+
+Lemma read_graphsync_sound data p n a :
+  read_graphsync data = (Ok (p, n), a) -> wf_bytes data = true ->
+  firstn n data = enc_proto p /\ (1 <= n <= length data)%nat /\ kind_of p = KGraphsync /\ wf_proto p = true.
+Proof.
+  intros Hr W.
+  assert (Hd : exists k0, dec data = Ok (id_graphsync, k0)).
+  { unfold read_graphsync in Hr. destruct (dec data) as [[v k1]|e|e]; try discriminate.
+    destruct (v =? id_graphsync) eqn:E; [|discriminate]. apply N.eqb_eq in E. subst v. eexists; reflexivity. }
+  destruct Hd as [k0 Hd]. rewrite <- read_by_id_gs in Hr.
+  destruct (read_by_id_sound _ _ _ _ _ _ Hd Hr W) as (F & L & Wp & Hid & _).
+  repeat split; try assumption; try lia.
+  unfold read_by_id in Hr. change (id_graphsync =? id_bitswap) with false in Hr. rewrite N.eqb_refl in Hr.
+  unfold read_graphsync in Hr. rewrite Hd in Hr. rewrite N.eqb_refl in Hr. cbn [negb] in Hr.
+  destruct (gs_dec (skipn k0 data)) as [[[[c vd] fr] k]|e|e]; try discriminate.
+  injection Hr as <- _ _. reflexivity.
+Qed.
+
+Lemma proto_read_sound k data p n a :
+  proto_read k data = (Ok (p, n), a) -> wf_bytes data = true ->
+  firstn n data = enc_proto p /\ (1 <= n <= length data)%nat /\ kind_of p = k.
+Proof.
+  destruct k; cbn [proto_read]; intros Hr W.
+  - apply read_fixed_sound in Hr as (-> & -> & F & L & _).
+    change (length (enc id_bitswap)) with 2%nat in *. repeat split; try assumption; lia.
+  - apply read_fixed_sound in Hr as (-> & -> & F & L & _).
+    change (length (enc id_gateway ++ enc 0)) with 3%nat in *. repeat split; try assumption; lia.
+  - destruct (read_graphsync_sound _ _ _ _ Hr W) as (F & L & K & _). tauto.
+  - apply (read_unknown_sound _ _ _ _ Hr W).
+Qed.
+
+(* whatever a single protocol's UnmarshalBinary accepts is that protocol's encoding --
+   followed, for Unknown only, by bytes it ignores *)
+Theorem proto_unmarshal_canonical_thm k b p :
+  wf_bytes b = true -> proto_unmarshal k b = Ok p ->
+  kind_of p = k /\ exists rest, b = enc_proto p ++ rest /\ (k <> KUnknown -> rest = []).
+Proof.
+  intros W H. destruct k; cbn [proto_unmarshal] in H.
+  - destruct (bytes_eqb b (enc id_bitswap)) eqn:E; [|discriminate]. inversion H; subst p.
+    apply bytes_eqb_eq in E. split; [reflexivity|]. exists []. rewrite app_nil_r. split; [exact E|reflexivity].
+  - destruct (bytes_eqb b (enc id_gateway ++ enc 0)) eqn:E; [|discriminate]. inversion H; subst p.
+    apply bytes_eqb_eq in E. split; [reflexivity|]. exists []. rewrite app_nil_r. split; [exact E|reflexivity].
+  - destruct (read_graphsync b) as [[[q n]|e|e] a] eqn:R; cbn [fst] in H; try discriminate.
+    destruct (Nat.eqb n (length b)) eqn:E; [|discriminate]. inversion H; subst q. apply Nat.eqb_eq in E.
+    destruct (read_graphsync_sound _ _ _ _ R W) as (F & L & K & _).
+    split; [exact K|]. exists []. rewrite app_nil_r. split; [|reflexivity].
+    rewrite <- F, E. symmetry. apply firstn_all.
+  - destruct (read_unknown b) as [[[q n]|e|e] a] eqn:R; cbn [fst] in H; try discriminate.
+    inversion H; subst q. destruct (read_unknown_sound _ _ _ _ R W) as (F & L & K).
+    split; [exact K|]. exists (skipn n b). split; [|congruence].
+    rewrite <- F. symmetry. apply firstn_skipn.
+Qed.
+
+Theorem proto_unmarshal_marshal_thm p :
+  wf_proto p = true -> proto_unmarshal (kind_of p) (enc_proto p) = Ok p.
+Proof.
+  intro W. destruct (read_enc p [] W) as (k & a & _ & Hr). rewrite app_nil_r in Hr.
+  destruct p as [| |c vd fr|code raw]; cbn [kind_of proto_unmarshal enc_proto id_of] in *.
+  - rewrite (proj2 (bytes_eqb_eq _ _) eq_refl). reflexivity.
+  - rewrite (proj2 (bytes_eqb_eq _ _) eq_refl). reflexivity.
+  - rewrite read_by_id_gs in Hr. rewrite Hr. cbn [fst]. rewrite Nat.eqb_refl. reflexivity.
+  - cbn in W. destruct (wf_unknown_decomp _ _ W) as (_ & _ & _ & _ & _ & _ & _ & Hk & _).
+    destruct (known_id_false _ Hk) as (K1 & K2 & K3).
+    unfold read_by_id in Hr. rewrite K1, K2, K3 in Hr. rewrite Hr. reflexivity.
+Qed.
+
+Theorem proto_entry_points_total_thm k b :
+  benign (proto_unmarshal k b) /\ benign (fst (proto_read k b)).
+Proof.
+  assert (G : benign (fst (read_graphsync b))) by (rewrite <- read_by_id_gs; apply read_by_id_benign).
+  assert (U : benign (fst (read_unknown b))) by (rewrite <- read_by_id_0; apply read_by_id_benign).
+  destruct k; cbn [proto_unmarshal proto_read]; split;
+    try apply read_fixed_benign; try assumption.
+  - destruct (bytes_eqb _ _); cbn; [exact I|unfold EMismatch; lia].
+  - destruct (bytes_eqb _ _); cbn; [exact I|unfold EMismatch; lia].
+  - destruct (fst (read_graphsync b)) as [[q n]|e|e]; cbn in *; try assumption.
+    destruct (Nat.eqb n (length b)); cbn; [exact I|unfold ETrailing; lia].
+  - destruct (fst (read_unknown b)) as [[q n]|e|e]; cbn in *; assumption.
+Qed.
+
+(* Metadata.Equal *)
+Lemma proto_equal_refl a : proto_equal a a = true.
+Proof. unfold proto_equal. rewrite N.eqb_refl, (proj2 (bytes_eqb_eq _ _) eq_refl). reflexivity. Qed.
+
+Lemma equal_refl m : equal m m = true.
+Proof. induction m as [|a m IH]; cbn; [reflexivity|]. rewrite proto_equal_refl. exact IH. Qed.
+
+Lemma wf_unknown_not_known c raw : wf_unknown c raw = true -> known_id c = false.
+Proof. intro W. destruct (wf_unknown_decomp _ _ W) as (_ & _ & _ & _ & _ & _ & _ & Hk & _). exact Hk. Qed.
+
+Lemma wf_kind_by_id a b :
+  wf_proto a = true -> wf_proto b = true -> id_of a = id_of b -> kind_of a = kind_of b.
+Proof.
+  destruct a as [| |c vd fr|code raw], b as [| |c' vd' fr'|code' raw']; cbn [wf_proto id_of kind_of];
+    intros Wa Wb E; try reflexivity; try discriminate;
+    try (apply wf_unknown_not_known in Wa; subst code; discriminate);
+    try (apply wf_unknown_not_known in Wb; subst code'; discriminate).
+Qed.
+
+Lemma proto_equal_iff a b :
+  wf_proto a = true -> wf_proto b = true -> (proto_equal a b = true <-> a = b).
+Proof.
+  intros Wa Wb. split; [|intros ->; apply proto_equal_refl].
+  unfold proto_equal. intro H. apply andb_prop in H as [Hi He].
+  apply N.eqb_eq in Hi. apply bytes_eqb_eq in He.
+  pose proof (proto_unmarshal_marshal_thm a Wa) as Ra.
+  pose proof (proto_unmarshal_marshal_thm b Wb) as Rb.
+  rewrite (wf_kind_by_id a b Wa Wb Hi), He in Ra. congruence.
+Qed.
+
+Theorem equal_iff_thm : forall m1 m2,
+  forallb wf_proto m1 = true -> forallb wf_proto m2 = true -> (equal m1 m2 = true <-> m1 = m2).
+Proof.
+  induction m1 as [|a m1 IH]; intros [|b m2] W1 W2; cbn; split; intro H; try reflexivity; try discriminate.
+  - cbn in W1, W2. apply andb_prop in W1 as [Wa W1]. apply andb_prop in W2 as [Wb W2].
+    apply andb_prop in H as [Hab H]. apply (proto_equal_iff a b Wa Wb) in Hab. subst b.
+    f_equal. apply (IH m2 W1 W2). exact H.
+  - inversion H; subst. rewrite proto_equal_refl. apply equal_refl.
+Qed.
+
+Theorem unmarshal_marshal_equal_thm ps :
+  ps <> [] -> forallb wf_proto ps = true ->
+  exists m, unmarshal (marshal ps) = Ok m /\ equal (new ps) m = true /\ equal m (new ps) = true.
+Proof.
+  intros Hne W. exists (new ps). rewrite unmarshal_marshal_thm by assumption.
+  repeat split; apply equal_refl.
+Qed.
+
+(* Equal compares IDs and encodings only: an Unknown that carries a registered ID and that
+   protocol's bytes is Equal to it (not a wf_proto value) *)
+Example equal_unknown_vs_known :
+  equal [PUnknown id_bitswap [128; 18]] [PBitswap] = true
+  /\ wf_proto (PUnknown id_bitswap [128; 18]) = false
+  /\ equal [PUnknown (id_bitswap + 1) [128; 18]] [PBitswap] = false.
+Proof. vm_compute. repeat split. Qed.
+
+(* Unknown.UnmarshalBinary ignores what follows the payload; the others do not *)
+Example proto_unmarshal_trailing :
+  proto_unmarshal KUnknown [18; 1; 7; 128; 18] = Ok (PUnknown 18 [18; 1; 7])
+  /\ proto_unmarshal KBitswap [128; 18; 0] = Err EMismatch
+  /\ proto_unmarshal KGraphsync (enc_proto (PGraphsync ex_cid true false) ++ [0]) = Err ETrailing
+  /\ proto_unmarshal KUnknown [224; 3; 0] = Ok (mk_unknown id_http []).
+Proof. vm_compute. repeat split. Qed.
